@@ -219,6 +219,8 @@ class map_impl {
     m_comm.barrier();
     std::swap(m_default_value, s.m_default_value);
     m_local_map.swap(s.m_local_map);
+    // No rank may use either container before every rank has swapped.
+    m_comm.cf_barrier();
   }
 
   template <typename STLKeyContainer, typename MapKeyValue>
